@@ -1,6 +1,98 @@
-(* Corr/NewickCorr.v — correspondence entry points. *)
+(* Corr/NewickCorr.v — correspondence entry points for package formats/newick:
+   decode a case value, run the model, encode the observable exactly as
+   harness/newick.go encodes the implementation's.
+   A tree is [name dist [children...]] with dist the canonical float text. *)
 From Coq Require Import String.
 From Bio Require Import Base.
 From Bio.Model Require Import Newick.
 
-Definition corr_newick : list (string * (val -> val)) := [].
+Fixpoint tree_of_val (v : val) : option tree :=
+  match v with
+  | VL [VB n; VB d; VL cs] =>
+    match all_some (map tree_of_val cs) with
+    | Some l => Some (Node n d l)
+    | None => None
+    end
+  | _ => None
+  end.
+
+Fixpoint val_of_tree (t : tree) : val :=
+  match t with Node n d cs => VL [VB n; VB d; VL (map val_of_tree cs)] end.
+
+Definition val_of_path (p : path) : val := VL (map (fun i => VI (Z.of_nat i)) p).
+Definition val_of_occs (l : list occ) : val := VL (map (fun x => val_of_path (fst x)) l).
+
+Definition c_traverse (pre : bool) (v : val) : val :=
+  match tree_of_val v with
+  | Some t => v_outcome val_of_occs (traverse pre t)
+  | None => v_bad
+  end.
+
+Definition v_decoded (r : outcome (list (item tree))) : val := v_outcome (v_items val_of_tree) r.
+
+(* [tree oracle] -> MarshalText bytes *)
+Definition c_write (v : val) : val :=
+  match v with
+  | VL [tv; ov] =>
+    match tree_of_val tv, as_foracle ov with
+    | Some t, Some o => v_ok (VB (marshal o t))
+    | _, _ => v_bad
+    end
+  | _ => v_bad
+  end.
+
+(* [bytes term oracle] -> items of Reader *)
+Definition c_decode (v : val) : val :=
+  match v with
+  | VL [VB s; tv; ov] =>
+    match as_term tv, as_foracle ov with
+    | Some tm, Some o => v_decoded (decode o s tm)
+    | _, _ => v_bad
+    end
+  | _ => v_bad
+  end.
+
+Definition trees_of_vals (l : list val) : option (list tree) := all_some (map tree_of_val l).
+
+Fixpoint zip_seps (ts : list tree) (seps : list bytes) : list (tree * bytes) :=
+  match ts with
+  | [] => []
+  | t :: r => (t, hd [] seps) :: zip_seps r (tl seps)
+  end.
+
+Fixpoint seq_bytes (o : foracle) (l : list (tree * bytes)) : bytes :=
+  match l with
+  | [] => []
+  | (t, sep) :: r => marshal o t ++ sep ++ seq_bytes o r
+  end.
+
+(* [[trees] [separators] oracle] -> [written bytes, items read back] *)
+Definition c_seq (v : val) : val :=
+  match v with
+  | VL [VL tvs; sv; ov] =>
+    match trees_of_vals tvs, as_bytes_list sv, as_foracle ov with
+    | Some ts, Some seps, Some o =>
+      let txt := seq_bytes o (zip_seps ts seps) in
+      VL [VB txt; v_decoded (decode o txt TEOF)]
+    | _, _, _ => v_bad
+    end
+  | _ => v_bad
+  end.
+
+Definition no_floats : foracle := {| f_parse := []; f_fmt := [] |}.
+
+(* name -> [nameToText, nameFromText of it, text of the single-node tree
+   without its ';', items read back from that text] *)
+Definition c_name (v : val) : val :=
+  match v with
+  | VB s =>
+    let txt := marshal no_floats (Node s zeroF []) in
+    VL [VB (name_to_text s); VB (name_from_text (name_to_text s));
+        VB (removelast txt); v_decoded (decode no_floats txt TEOF)]
+  | _ => v_bad
+  end.
+
+Definition corr_newick : list (string * (val -> val)) :=
+  [ ("newick_pre"%string, c_traverse true); ("newick_post"%string, c_traverse false);
+    ("newick_write"%string, c_write); ("newick_decode"%string, c_decode);
+    ("newick_seq"%string, c_seq); ("newick_name"%string, c_name) ].
